@@ -11,6 +11,7 @@ util.ensure_repo_importable()
 from strengths import RDNetwork, Reaction, Species, UnitValue, Units, UnitsSystem  # noqa: E402
 from strengths.units import UnitsDimensions  # noqa: E402
 from strengths import librdengine  # noqa: E402
+from strengths.rdnetwork import reaction_from_dict  # noqa: E402
 
 PROP = "C19"
 LABELS = ["A", "B", "C", "2"]
@@ -89,11 +90,26 @@ def check_case(rep, c, rng, systems, swap=False):
     # every other dimension vector near the right one is refused
     for delta in rng.sample([d for d in itertools.product((-1, 0, 1), repeat=3) if d != (0, 0, 0)], 3):
         wrong = [kdim[0] + delta[0], kdim[1] + delta[1], kdim[2] + delta[2]]
-        try:
-            Reaction(texts[0], kf=UnitValue(1.0, Units(usys, UnitsDimensions(*wrong))), units_system=usys)
-            rep.violation("constants", "reaction:wrong-dimension-accepted", dict(detail, dim=wrong, right=kdim))
-        except Exception:
-            pass
+        # ... whatever its value (zero included), for either constant, as a quantity or as text, at construction or by assignment
+        val = rng.choice([1.0, 0.0, 0.0, 2.5])
+        q = UnitValue(val, Units(usys, UnitsDimensions(*wrong)))
+        wrong_r = [krdim[0] + delta[0], krdim[1] + delta[1], krdim[2] + delta[2]]
+        qr = UnitValue(val, Units(usys, UnitsDimensions(*wrong_r)))
+        attempts = {"kf-quantity": lambda: Reaction(texts[0], kf=q, units_system=usys),
+                    "kf-text": lambda: Reaction(texts[0], kf=str(q), units_system=usys),
+                    "kr-quantity": lambda: Reaction(texts[0], kf=1.0, kr=qr, units_system=usys),
+                    "kr-text": lambda: Reaction(texts[0], kf=1.0, kr=str(qr), units_system=usys),
+                    "kf-assigned": lambda: setattr(Reaction(texts[0], kf=1.0, units_system=usys), "kf", q),
+                    "kr-assigned": lambda: setattr(Reaction(texts[0], kf=1.0, units_system=usys), "kr", qr),
+                    "kf-dictionary": lambda: reaction_from_dict({"eq": texts[0], "k+": str(q)})}
+        for how, fn in attempts.items():
+            try:
+                fn()
+                rep.violation("constants", "reaction:wrong-dimension-accepted:%s%s" % (how, ":zero" if val == 0 else ""),
+                              dict(detail, dim=wrong if how.startswith("kf") else wrong_r, right=kdim if how.startswith("kf") else krdim, value=val))
+                break
+            except Exception:
+                pass
     # explicit quantity of the right dimension in another system is kept as given
     other = rng.choice(systems)
     k = UnitValue(3.0, Units(UnitsSystem(*other), UnitsDimensions(*kdim)))
